@@ -9,6 +9,8 @@ CONSTANTS
   WM = 8
   ConstructSlots <- Slots3
   Unbounded = FALSE
+  Canon = FALSE
+  LinK = 0
   ViewIds <- Views2
   Ops <- AllOps
   EmitAll = FALSE
